@@ -547,7 +547,11 @@ def np_eye(ex, st, args, kwargs):
     n = V.conc(args[0]) if not isinstance(args[0], int) else args[0]
     if not isinstance(n, int):
         raise Unsupported("symbolic eye")
-    return L.eye(n)
+    r = L.eye(n)
+    dt = kwargs.get("dtype")
+    if dt is not None:
+        r = _astype(r, _kind_from_dtype(dt))
+    return r
 
 
 def np_arange(ex, st, args, kwargs):
@@ -1506,6 +1510,15 @@ NP.update({"numpy.nonzero": np_nonzero, "numpy.flatnonzero": np_flatnonzero, "nu
            "numpy.nanmin": np_min, "numpy.nanmax": np_max, "numpy.nansum": lambda ex, st, a, k: L.np_sum(a[0], _axis(a, k)),
            "numpy.reciprocal": lambda ex, st, a, k: L.binop("div", Fraction(1), a[0]),
            "numpy.average": lambda ex, st, a, k: (np_mean(ex, st, a, k) if "weights" not in k and len(a) < 3 else (_ for _ in ()).throw(Unsupported("weighted average")))})
+for _on, _bn in (("le", "le"), ("ge", "ge"), ("lt", "lt"), ("gt", "gt"), ("eq", "eq"), ("ne", "ne"), ("add", "add"), ("sub", "sub"), ("mul", "mul"),
+                 ("truediv", "div"), ("and_", "and"), ("or_", "or")):
+    NP["operator." + _on] = (lambda bn: (lambda ex, st, a, k: L.binop(bn, a[0], a[1])))(_bn)
+NP["operator.neg"] = lambda ex, st, a, k: L.unary("neg", a[0])
+NP["operator.not_"] = lambda ex, st, a, k: L.unary("not", a[0])
+NP["numpy.divmod"] = lambda ex, st, a, k: (L.binop("floordiv", a[0], a[1]), L.binop("mod", a[0], a[1]))
+NP["numpy.floor_divide"] = lambda ex, st, a, k: L.binop("floordiv", a[0], a[1])
+NP["numpy.mod"] = lambda ex, st, a, k: L.binop("mod", a[0], a[1])
+NP["numpy.remainder"] = NP["numpy.mod"]
 NP["numpy.putmask"] = np_putmask
 NP["torch.diag_embed"] = t_diag_embed
 NP["numpy.asanyarray"] = np_asarray
